@@ -38,7 +38,7 @@ CHECKS = {
         "All 256 byte values at every position of arrays of length 0..5(7), all field tuples per byte, 3 depths x both orders and "
         "their accepted spellings, with and without caller buffers, the full rejection matrix, and the default order per depth "
         "through the real writer and reader: the domain of the statement is finite and is covered completely.",
-        "Trusted: the Python-integer reference in vf/core/fixtures.py. Array lengths above the bound are not explored (kernels are per-byte loops).",
+        "Trusted: the Python-integer reference in vf/core/fixtures.py (a vectorised form, proven equal to it on all 256 byte values at run time, is used for arrays longer than 4096 bytes). Long arrays (up to 1 M packed bytes; thorough: one array per depth and order crossing 2**31 samples) are compared element by element.",
         "DESIGN.md section 3 C03",
     ),
     "C04": (
@@ -274,12 +274,18 @@ ENGINES = [
 NOT_APPLICABLE_REASON = "check not built yet in this session (work in progress; see DESIGN.md section 3 for the planned design)"
 
 
+SCALE_LANE = (" In addition a scale lane pushes one or a few instances of ordinary size (tens of thousands of samples, tens to hundreds of channels, "
+              "several member files, megabyte-sized reads/writes; the exact sizes are in the evidence file's bounds and rule) through the same oracle over a reduced, "
+              "fully enumerated parameter set; it is exhaustive over that set, not over sizes (DESIGN.md section 10.3).")
+
+
 def main() -> int:
     checks = []
     for pid in ALL:
         if pid not in CHECKS:
             continue
         cat, tech, text, note, ref = CHECKS[pid]
+        text = text + SCALE_LANE
         checks.append(
             {
                 "property_id": pid,
